@@ -13,6 +13,7 @@ package gabi
 //  (c) environment part: honest proofs under <= 1 deviation of every random draw.
 
 import (
+	"encoding/json"
 	"fmt"
 	"testing"
 	"time"
@@ -43,8 +44,46 @@ func c11VerifyMany(pk *gabikeys.PublicKey, p *ProofD, n int) int {
 			ok = 1
 		}
 	}
+	if ok == 0 && c11UsedReceiverAccepts(pk, p) {
+		ok = 1
+	}
 	return ok
 }
+
+// c11UsedReceiverAccepts: the verifier decodes the message into a ProofD value that already received -
+// and verified - the honest proof c11Prior: nothing that verification left in the value (memoised
+// accumulator) may vouch for the new content.  (Only when the value differs from the verified honest one afterwards:
+// encoding/json merges maps.)
+func c11UsedReceiverAccepts(pk *gabikeys.PublicKey, p *ProofD) (accepted bool) {
+	if c11Prior == nil {
+		return false
+	}
+	vkit.Guard(func() {
+		q := vsCloneProof(c11Prior).(*ProofD)
+		if !q.Verify(pk, vfContext, vfNonce, false) {
+			return
+		}
+		// (verification may have filled in fields of its own - the alpha response - and encoding/json merges
+		// maps: what counts is that the value no longer equals the verified honest one)
+		before, err := json.Marshal(q)
+		if err != nil {
+			return
+		}
+		bts, err := json.Marshal(p)
+		if err != nil || json.Unmarshal(bts, q) != nil {
+			return
+		}
+		if after, err := json.Marshal(q); err != nil || string(after) == string(before) {
+			return
+		}
+		accepted = q.Verify(pk, vfContext, vfNonce, false) || (ProofList{q}).Verify([]*gabikeys.PublicKey{pk}, vfContext, vfNonce, false, nil)
+	})
+	return
+}
+
+// c11Prior: the honest proof a receiver's ProofD value held (and verified) before the message under test
+// is decoded into it; nil = that route is not taken.
+var c11Prior *ProofD
 
 // ---- (a) history part -------------------------------------------------------------------------
 
@@ -217,7 +256,7 @@ func TestVerifC11Histories(t *testing.T) {
 func TestVerifC11Adversarial(t *testing.T) {
 	r := vkit.Start(t, "C11", "adversarial", 240*time.Second, 1200*time.Second)
 	defer r.Finish()
-	r.Rule = "honest non-revocation proofs (toy and 1024-bit) x every single-leaf alteration of the non-revocation part (C_r, C_u, each response, every 8th byte of the signed accumulator, key counter, responses deleted/added), every transplant (whole part / signed accumulator / single responses) from another credential of the same key, from the same credential at an older accumulator, from a credential under another key; the proof's own accumulator relabelled (later index / time) and signed with another key; every rejected object verified again; the disclosure part of a revoked credential joined under one challenge with the non-revocation part of another credential; proofs from a revoked or foreign witness (guard bypassed by building the commitment from a doctored witness); non-trivial = distinct (key, alteration); oracle: rejected (16 verifications: never accepted)"
+	r.Rule = "honest non-revocation proofs (toy and 1024-bit) x every single-leaf alteration (each also decoded into a ProofD value that already received and verified the honest proof) of the non-revocation part (C_r, C_u, each response, every 8th byte of the signed accumulator, key counter, responses deleted/added), every transplant (whole part / signed accumulator / single responses) from another credential of the same key, from the same credential at an older accumulator, from a credential under another key; the proof's own accumulator relabelled (later index / time) and signed with another key; every rejected object verified again; the disclosure part of a revoked credential joined under one challenge with the non-revocation part of another credential; proofs from a revoked or foreign witness (guard bypassed by building the commitment from a doctored witness); non-trivial = distinct (key, alteration); oracle: rejected (16 verifications: never accepted)"
 	for _, keyName := range vkit.Pick([]string{"toyB"}, []string{"toyB", "k1024a"}) {
 		k := vfK(keyName)
 		env := vfInstallEnv(t, "C11/adv/"+keyName, r.Seed)
@@ -240,6 +279,7 @@ func TestVerifC11Adversarial(t *testing.T) {
 		}
 		honest := mk(credA)
 		pB, pOld, pO := mk(credB), mk(credOld), mk(credO)
+		c11Prior = honest
 		if n := c11VerifyMany(k.Pk, honest, 16); n != 16 {
 			r.Violate("C11|honest-nonrev-rejected|adversarial-baseline", fmt.Sprintf("baseline proof accepted %d/16", n), keyName)
 			continue
@@ -345,6 +385,9 @@ func TestVerifC11Adversarial(t *testing.T) {
 				}); !pan && again && !ok {
 					acc++
 				}
+			}
+			if acc == 0 && c11UsedReceiverAccepts(k.Pk, p) {
+				r.Violate("C11|altered-nonrev-part-accepted-by-a-used-receiver|"+a.class, fmt.Sprintf("%s: %s accepted when decoded into a ProofD value that had received and verified the honest proof", keyName, a.desc), map[string]any{"key": keyName, "alteration": a.desc})
 			}
 			r.Outcome(fmt.Sprintf("%s:accepted=%d", a.class, acc))
 			if acc > 0 {
